@@ -5,10 +5,9 @@ open UtilModel UtilModel.Keyed
 #print axioms UtilModel.Chain.chain_one_running
 #print axioms UtilModel.Keyed.kinv_reachable
 #print axioms UtilModel.Keyed.inv3_reachable
-#print axioms UtilModel.Keyed.one_running_per_key_partial
-#print axioms UtilModel.Keyed.one_running_per_key_full_false
-#print axioms UtilModel.Keyed.removed_cancelled_partial
-#print axioms UtilModel.Keyed.removed_dead_partial
+#print axioms UtilModel.Keyed.one_running_per_key
+#print axioms UtilModel.Keyed.removed_cancelled
+#print axioms UtilModel.Keyed.removed_dead
 #print axioms UtilModel.Keyed.removed_never_restarted
 #print axioms UtilModel.Keyed.retry_pending_armed
 #print axioms UtilModel.Keyed.retry_pending_setKey_nostart
